@@ -392,6 +392,7 @@ pub fn create_db_from_file_name(file_name: &String, dbs: &Arc<Databases>) -> (Da
     let mut value_addr_buffer = [0; U64_SIZE];
     let mut version_buffer = [0; VERSION_SIZE];
     let mut key_disk_addr = 0;
+    let keys_file_size = keys_file.metadata().unwrap().len();
     while let Ok(read) = keys_file.read(&mut length_buffer) {
         if read == 0 {
             //If could not read anything stop
@@ -400,6 +401,13 @@ pub fn create_db_from_file_name(file_name: &String, dbs: &Arc<Databases>) -> (Da
 
         //Read key
         let key_length: usize = usize::from_le_bytes(length_buffer);
+        // A crash in the middle of a snapshot can leave a partial record at the end of the keys
+        // file, all the records before it are intact
+        let record_size = (key_length as u64).saturating_add((U64_SIZE + ADDR_SIZE + VERSION_SIZE) as u64);
+        if read < U64_SIZE || key_disk_addr + record_size > keys_file_size {
+            log::warn!("Ignoring incomplete key record at the end of {}", file_name);
+            break;
+        }
         let mut key_buffer = vec![0; key_length];
         keys_file.read(&mut key_buffer).unwrap();
         let key = str::from_utf8(&key_buffer).unwrap();
